@@ -26,6 +26,8 @@ CONSTANTS
   MaxAtt,      \* push attempts per journey
   MaxRs,       \* restarts per journey
   MinEnd,      \* a terminal step (ack / successful delivery) needs this many dequeues / attempts first
+  MaxOther,    \* steps of unrelated traffic per journey
+  OKinds, OSizes,   \* how the unrelated traffic arrives / how long its bodies are relative to the message's
   UseTour      \* TRUE: follow the fixed tour (one long path through every channel) instead of all paths
 
 VARIABLES in,     \* the input
@@ -33,12 +35,12 @@ VARIABLES in,     \* the input
           ttl,    \* lease kind of a leased message: "long" | "short" | "-"
           store,  \* what the store holds: Nothing or [pl, hd]
           obs,    \* the last observation: None or [ch, pl, hd]
-          nd, na, rs,   \* dequeues, push attempts, restarts so far
+          nd, na, rs, no,   \* dequeues, push attempts, restarts, steps of other traffic so far
           n,      \* steps after Submit (tour position)
           last    \* the last operation (JSON vocabulary of the harness)
-vars == <<in, st, ttl, store, obs, nd, na, rs, n, last>>
-View == <<in, st, ttl, store, nd, na, rs>>
-ViewT == <<in, st, ttl, store, nd, na, rs, n>>   \* tour mode: the position in the tour is part of the state
+vars == <<in, st, ttl, store, obs, nd, na, rs, no, n, last>>
+View == <<in, st, ttl, store, nd, na, rs, no>>
+ViewT == <<in, st, ttl, store, nd, na, rs, no, n>>   \* tour mode: the position in the tour is part of the state
 
 Nothing == [pl |-> "-", hd |-> <<>>, none |-> TRUE]
 None    == [ch |-> "-"]
@@ -76,30 +78,37 @@ OpList(w)        == [op |-> "List", which |-> w]
 OpCancel(f)      == [op |-> "Cancel", form |-> f]       \* operator: /messages/cancel | cancel_by_filter
 OpResume(f)      == [op |-> "Resume", form |-> f]       \* operator: /messages/resume | resume_by_filter
 OpRequeueMsg(f)  == [op |-> "RequeueMsg", form |-> f]   \* operator: /messages/requeue | requeue_by_filter (dead or canceled)
+\* Traffic that has nothing to do with the message, through the same instance: a few requests to another route over
+\* framing k (handler | wire | stream | chunked) or a publish batch (publish), with bodies as long as / longer than /
+\* shorter than the message's and the same header names with other values.
+OpOther(k, z)    == [op |-> "Other", k |-> k, sz |-> z]
 
 \* The tour: one long path that takes the message through every channel,
 \* redelivery by nack and by lease expiry, the DLQ and back, operator cancel /
 \* resume / requeue in both forms, and restarts.
 PullTourAll ==
-  << OpList("messages"),
-     OpDeq("http", "long", "one"),  OpLease("nack", "http", "single"),
+  << OpList("messages"), OpOther("handler", "longer"),
+     OpDeq("http", "long", "one"),  OpOther("stream", "same"), OpLease("nack", "http", "single"),
+     OpOther("wire", "shorter"),
      OpDeq("grpc", "long", "pair"),  OpRestart, OpLease("nack", "grpc", "batch"),
-     OpCancel("id"), OpList("messages"), OpResume("id"),
-     OpDeq("inproc", "long", "alone"), OpExtend("http"), OpLease("nack", "http", "batch"),
-     OpDeq("http", "short", "pair"), OpExpire,
+     OpCancel("id"), OpOther("publish", "same"), OpList("messages"), OpResume("id"),
+     OpDeq("inproc", "long", "alone"), OpOther("chunked", "longer"), OpExtend("http"), OpLease("nack", "http", "batch"),
+     OpDeq("http", "short", "pair"), OpExpire, OpOther("handler", "same"),
      OpCancel("filter"), OpRestart, OpRequeueMsg("filter"),
-     OpDeq("grpc", "long", "one"),  OpExtend("grpc"), OpLease("dead", "grpc", "single"), OpList("dlq"), OpRestart, OpRequeue("-", "-"),
-     OpDeq("inproc", "long", "pair"), OpLease("dead", "http", "batch"), OpRequeueMsg("id"),
-     OpDeq("http", "long", "alone"), OpCancel("id"), OpResume("filter"),
-     OpDeq("grpc", "long", "alone"), OpLease("ack", "http", "single"), OpList("messages") >>
+     OpDeq("grpc", "long", "one"),  OpExtend("grpc"), OpLease("dead", "grpc", "single"), OpOther("stream", "longer"), OpList("dlq"),
+     OpRestart, OpRequeue("-", "-"),
+     OpDeq("inproc", "long", "pair"), OpLease("dead", "http", "batch"), OpRequeueMsg("id"), OpOther("chunked", "shorter"),
+     OpDeq("http", "long", "alone"), OpCancel("id"), OpResume("filter"), OpOther("wire", "longer"),
+     OpDeq("grpc", "long", "alone"), OpLease("ack", "http", "single"), OpOther("handler", "shorter"), OpList("messages") >>
 PushTourAll ==
-  << OpList("messages"),
-     OpPush("retry", "alone"), OpRestart, OpCancel("id"), OpResume("id"),
-     OpPush("retry", "pair"), OpCancel("filter"), OpRequeueMsg("filter"),
-     OpPush("fatal", "alone"), OpList("dlq"), OpRestart, OpRequeue("retry", "pair"),
+  << OpList("messages"), OpOther("handler", "longer"),
+     OpPush("retry", "alone"), OpOther("stream", "same"), OpRestart, OpCancel("id"), OpOther("publish", "longer"), OpResume("id"),
+     OpPush("retry", "pair"), OpOther("wire", "shorter"), OpCancel("filter"), OpRequeueMsg("filter"),
+     OpPush("fatal", "alone"), OpOther("chunked", "same"), OpList("dlq"), OpRestart, OpRequeue("retry", "pair"),
+     OpOther("handler", "same"),
      OpPush("fatal", "alone"), OpRequeueMsg("id"),
-     OpCancel("id"), OpResume("filter"),
-     OpPush("ok", "alone"), OpList("messages") >>
+     OpCancel("id"), OpResume("filter"), OpOther("chunked", "longer"),
+     OpPush("ok", "alone"), OpOther("stream", "shorter"), OpList("messages") >>
 Tour(i) ==
   SelectSeq(IF i.mode = "pull" THEN PullTourAll ELSE PushTourAll, LAMBDA o : o.op # "Restart" \/ i.be = "sqlite")
 
@@ -108,7 +117,7 @@ Go(o) == ~UseTour \/ (n + 1 \in DOMAIN Tour(in) /\ Tour(in)[n + 1] = o)
 Init ==
   /\ in \in Inputs
   /\ st = "new" /\ ttl = "-" /\ store = Nothing /\ obs = None
-  /\ nd = 0 /\ na = 0 /\ rs = 0 /\ n = 0
+  /\ nd = 0 /\ na = 0 /\ rs = 0 /\ no = 0 /\ n = 0
   /\ last = [op |-> "Init"]
 
 Step(o) == last' = o /\ n' = (IF o.op = "Submit" THEN 0 ELSE n + 1) /\ in' = in
@@ -123,7 +132,7 @@ Submit ==
      ELSE st' = "queued" /\ store' = Hold(in.pc, ExpectedStored(in))
   /\ obs' = None
   /\ Step(OpSubmit(in))
-  /\ UNCHANGED <<ttl, nd, na, rs>>
+  /\ UNCHANGED <<ttl, nd, na, rs, no>>
 
 Deq ==
   \E ch \in {"http", "grpc", "inproc"}, t \in {"long", "short"}, b \in {"one", "alone", "pair"} :
@@ -131,7 +140,7 @@ Deq ==
     /\ st' = "leased" /\ ttl' = t /\ nd' = nd + 1
     /\ obs' = See(ch)
     /\ Step(OpDeq(ch, t, b))
-    /\ UNCHANGED <<store, na, rs>>
+    /\ UNCHANGED <<store, na, rs, no>>
 
 LeaseOp ==
   \E k \in {"nack", "dead", "ack"}, ch \in {"http", "grpc"}, f \in {"single", "batch"} :
@@ -140,20 +149,20 @@ LeaseOp ==
     /\ st' = (CASE k = "nack" -> "queued" [] k = "dead" -> "dead" [] k = "ack" -> "delivered")
     /\ ttl' = "-" /\ obs' = None
     /\ Step(OpLease(k, ch, f))
-    /\ UNCHANGED <<store, nd, na, rs>>
+    /\ UNCHANGED <<store, nd, na, rs, no>>
 
 Extend ==
   \E ch \in {"http", "grpc"} :
     /\ st = "leased" /\ ttl = "long" /\ Go(OpExtend(ch))
     /\ obs' = None
     /\ Step(OpExtend(ch))
-    /\ UNCHANGED <<st, ttl, store, nd, na, rs>>
+    /\ UNCHANGED <<st, ttl, store, nd, na, rs, no>>
 
 Expire ==
   /\ st = "leased" /\ ttl = "short" /\ Go(OpExpire)
   /\ st' = "queued" /\ ttl' = "-" /\ obs' = None
   /\ Step(OpExpire)
-  /\ UNCHANGED <<store, nd, na, rs>>
+  /\ UNCHANGED <<store, nd, na, rs, no>>
 
 After(o) == CASE o = "ok" -> "delivered" [] o = "retry" -> "queued" [] o = "fatal" -> "dead"
 
@@ -164,20 +173,20 @@ Push ==
     /\ st' = After(o) /\ na' = na + 1
     /\ obs' = See("push")
     /\ Step(OpPush(o, b))
-    /\ UNCHANGED <<ttl, store, nd, rs>>
+    /\ UNCHANGED <<ttl, store, nd, rs, no>>
 
 \* operator requeue from the DLQ; on a deliver route the next attempt follows at once
 Requeue ==
   \/ /\ in.mode = "pull" /\ st = "dead" /\ Go(OpRequeue("-", "-"))
      /\ st' = "queued" /\ obs' = None
      /\ Step(OpRequeue("-", "-"))
-     /\ UNCHANGED <<ttl, store, nd, na, rs>>
+     /\ UNCHANGED <<ttl, store, nd, na, rs, no>>
   \/ \E o \in {"ok", "retry", "fatal"}, b \in {"alone", "pair"} :
        /\ in.mode = "push" /\ st = "dead" /\ na < MaxAtt /\ Go(OpRequeue(o, b))
        /\ st' = After(o) /\ na' = na + 1
        /\ obs' = See("push")
        /\ Step(OpRequeue(o, b))
-       /\ UNCHANGED <<ttl, store, nd, rs>>
+       /\ UNCHANGED <<ttl, store, nd, rs, no>>
 
 \* operator: cancel a queued, leased or dead message (a lease is dropped), by id or by filter
 Cancel ==
@@ -185,7 +194,7 @@ Cancel ==
     /\ (st \in {"queued", "dead"} \/ (st = "leased" /\ ttl = "long")) /\ Go(OpCancel(f))
     /\ st' = "canceled" /\ ttl' = "-" /\ obs' = None
     /\ Step(OpCancel(f))
-    /\ UNCHANGED <<store, nd, na, rs>>
+    /\ UNCHANGED <<store, nd, na, rs, no>>
 
 \* operator: a canceled message becomes deliverable again
 Resume ==
@@ -193,7 +202,7 @@ Resume ==
     /\ st = "canceled" /\ Go(OpResume(f))
     /\ st' = "queued" /\ obs' = None
     /\ Step(OpResume(f))
-    /\ UNCHANGED <<ttl, store, nd, na, rs>>
+    /\ UNCHANGED <<ttl, store, nd, na, rs, no>>
 
 \* operator: /messages/requeue takes dead and canceled messages
 RequeueMsg ==
@@ -201,14 +210,14 @@ RequeueMsg ==
     /\ st \in {"dead", "canceled"} /\ Go(OpRequeueMsg(f))
     /\ st' = "queued" /\ obs' = None
     /\ Step(OpRequeueMsg(f))
-    /\ UNCHANGED <<ttl, store, nd, na, rs>>
+    /\ UNCHANGED <<ttl, store, nd, na, rs, no>>
 
 \* stop the instance, open the same database again (SQLite); a valid long lease survives
 Restart ==
   /\ in.be = "sqlite" /\ st # "new" /\ rs < MaxRs /\ ~(st = "leased" /\ ttl = "short") /\ Go(OpRestart)
   /\ rs' = rs + 1 /\ obs' = None
   /\ Step(OpRestart)
-  /\ UNCHANGED <<st, ttl, store, nd, na>>
+  /\ UNCHANGED <<st, ttl, store, nd, na, no>>
 
 \* admin listing with include_payload / include_headers
 List ==
@@ -216,9 +225,17 @@ List ==
     /\ st # "new" /\ (w = "dlq" => st = "dead") /\ Go(OpList(w))
     /\ obs' = See(w)
     /\ Step(OpList(w))
+    /\ UNCHANGED <<st, ttl, store, nd, na, rs, no>>
+
+\* unrelated traffic on the same instance: whatever it is, the message is untouched
+Other ==
+  \E k \in OKinds, z \in OSizes :
+    /\ st \in {"queued", "leased", "dead", "canceled", "delivered"} /\ no < MaxOther /\ Go(OpOther(k, z))
+    /\ no' = no + 1 /\ obs' = None
+    /\ Step(OpOther(k, z))
     /\ UNCHANGED <<st, ttl, store, nd, na, rs>>
 
-Next == Submit \/ Deq \/ LeaseOp \/ Extend \/ Expire \/ Push \/ Requeue \/ Cancel \/ Resume \/ RequeueMsg \/ Restart \/ List
+Next == Other \/ Submit \/ Deq \/ LeaseOp \/ Extend \/ Expire \/ Push \/ Requeue \/ Cancel \/ Resume \/ RequeueMsg \/ Restart \/ List
 
 Spec == Init /\ [][Next]_vars
 
@@ -227,7 +244,7 @@ TypeOK ==
   /\ st \in {"new", "refused", "queued", "leased", "dead", "canceled", "delivered"}
   /\ ttl \in {"long", "short", "-"}
   /\ (st = "leased") = (ttl # "-")
-  /\ nd \in 0..MaxDeq /\ na \in 0..MaxAtt /\ rs \in 0..MaxRs
+  /\ nd \in 0..MaxDeq /\ na \in 0..MaxAtt /\ rs \in 0..MaxRs /\ no \in 0..MaxOther
 
 \* payload and headers never change along any path once the message is stored
 Immutable == [][~store.none => store' = store]_vars
